@@ -1,21 +1,197 @@
 import QRV.Model.GF
+import QRV.Model.Bits
+import QRV.Model.Bitmap
+import QRV.Model.Codec
+import QRV.Model.RS
+import QRV.Model.QR
+import QRV.Model.Micro
+import QRV.Model.RMQR
+import QRV.Spec.Bits
 /-
 Line-protocol driver over the executable model: one operation per input line, one canonical
 result per output line.  The Go harness (harness/main) reads the same lines and calls the real
-code; `bin/check` diffs the two streams.
+code; `bin/check` diffs the two streams.  Protocol: see harness/main/*.go (same op names).
 -/
-open QRV
+open QRV QRV.Model
 
 def showNat (n : Nat) : String := toString n
 
+/-! ### parsing helpers -/
+
+def hexVal (c : Char) : Nat :=
+  if '0' ≤ c ∧ c ≤ '9' then c.toNat - 48
+  else if 'a' ≤ c ∧ c ≤ 'f' then c.toNat - 87
+  else if 'A' ≤ c ∧ c ≤ 'F' then c.toNat - 55
+  else 0
+
+/-- "-" is the empty string -/
+def parseHex (s : String) : List Nat :=
+  if s == "-" then []
+  else
+    let rec go : List Char → List Nat
+      | a :: b :: rest => (hexVal a * 16 + hexVal b) :: go rest
+      | _ => []
+    go s.toList
+
+def hexOf (l : List Nat) : String :=
+  if l.isEmpty then "-" else Bitmap.Image.hexBytes l.toArray
+
+def parseImage (s : String) : Bitmap.Image :=
+  match s.splitOn ":" with
+  | [hdr, px] =>
+    match hdr.splitOn "," with
+    | [a, b, c, d, e] =>
+      { pix := (parseHex px).toArray, stride := e.toInt!, minX := a.toInt!, minY := b.toInt!, maxX := c.toInt!, maxY := d.toInt! }
+    | _ => {}
+  | _ => {}
+
+def parseSegs : List String → List Sym.Segment
+  | m :: h :: rest => { mode := m.toNat!, data := parseHex h } :: parseSegs rest
+  | _ => []
+
+def showSegs (l : List Sym.Segment) : String :=
+  toString l.length ++ String.join (l.map fun s => " " ++ toString s.mode ++ " " ++ hexOf s.data)
+
+def showQR (q : Sym.QRCode) : String :=
+  s!"{q.version} {q.level} {q.mask} {showSegs q.segments}"
+
+def showBuf (b : Bits.Buffer) : String := s!"{b.len} {hexOf b.buf.toList}"
+
+/-! ### bit-buffer operation sequences -/
+
+/-- run `wb:<bit>`, `wl:<v>:<n>`, `rb`, `rs:<n>` on the literal model; results joined by ',' -/
+def runBufOps (ops : List String) : String := Id.run do
+  let mut b : Bits.Buffer := {}
+  let mut res : Array String := #[]
+  let mut k := 0
+  for op in ops do
+    match op.splitOn ":" with
+    | ["wb", v] =>
+      match Bits.writeBit b v.toNat! with
+      | .ok b' => b := b'; res := res.push "w"
+      | _ => return s!"panic {k} {String.intercalate "," res.toList}"
+    | ["wl", v, n] =>
+      match Bits.writeBitsLSB b v.toNat! n.toInt! with
+      | .ok b' => b := b'; res := res.push "w"
+      | _ => return s!"panic {k} {String.intercalate "," res.toList}"
+    | ["rb"] =>
+      let (b', r) := Bits.readBit b
+      b := b'
+      res := res.push (match r with | none => "EOF" | some v => toString v)
+    | ["rs", n] =>
+      match Bits.readBits b n.toInt! with
+      | .ok (b', r) =>
+        b := b'
+        res := res.push (match r with | none => "EOF" | some v => toString v)
+      | _ => return s!"panic {k} {String.intercalate "," res.toList}"
+    | _ => res := res.push "bad"
+    k := k + 1
+  return s!"ok {String.intercalate "," res.toList} {showBuf b}"
+
+/-- the same operation sequence on the specification (`Spec.Bits.Fifo`) -/
+def runBufSpec (ops : List String) : String := Id.run do
+  let mut f : Spec.Bits.Fifo := {}
+  let mut res : Array String := #[]
+  for op in ops do
+    match op.splitOn ":" with
+    | ["wb", v] => f := f.writeBit v.toNat!; res := res.push "w"
+    | ["wl", v, n] => f := f.writeBitsLSB v.toNat! n.toNat!; res := res.push "w"
+    | ["rb"] =>
+      let (f', r) := f.readBit
+      f := f'
+      res := res.push (match r with | none => "EOF" | some v => toString v)
+    | ["rs", n] =>
+      let (f', r) := f.readBits n.toNat!
+      f := f'
+      res := res.push (match r with | none => "EOF" | some v => toString v)
+    | _ => res := res.push "bad"
+  return s!"ok {String.intercalate "," res.toList} {f.len} {hexOf f.bytes}"
+
+/-! ### dispatch -/
+
+def codecEnc (f : Bits.Buffer → List Nat → Out Bits.Buffer) (h : String) : String :=
+  (f {} (parseHex h)).render showBuf
+
+def codecDec (f : Bits.Buffer → Nat → Out (Bits.Buffer × List Nat)) (n h : String) : String :=
+  (f { buf := (parseHex h).toArray } n.toNat!).render fun (b, d) => s!"{hexOf d} {b.offset * 8 + b.read}"
+
 def step (toks : List String) : String :=
   match toks with
-  | ["gf.add", a, b] => "ok " ++ toString (Model.GF.add a.toNat! b.toNat!)
-  | ["gf.mul", a, b] => "ok " ++ toString (Model.GF.mul a.toNat! b.toNat!)
-  | ["gf.log", a] => (Model.GF.log a.toNat!).render showNat
-  | ["gf.inv", a] => (Model.GF.inv a.toNat!).render showNat
-  | ["gf.exp", n] => (Model.GF.exp n.toInt!).render showNat
-  | ["gf.ame", x, y, z] => (Model.GF.addMulExp x.toNat! y.toInt! z.toInt!).render showNat
+  | ["gf.add", a, b] => "ok " ++ toString (GF.add a.toNat! b.toNat!)
+  | ["gf.mul", a, b] => "ok " ++ toString (GF.mul a.toNat! b.toNat!)
+  | ["gf.log", a] => (GF.log a.toNat!).render showNat
+  | ["gf.inv", a] => (GF.inv a.toNat!).render showNat
+  | ["gf.exp", n] => (GF.exp n.toInt!).render showNat
+  | ["gf.ame", x, y, z] => (GF.addMulExp x.toNat! y.toInt! z.toInt!).render showNat
+  | ["buf", ops] => runBufOps (ops.splitOn ";")
+  | ["bufspec", ops] => runBufSpec (ops.splitOn ";")
+  | ["codec.enc.num", h] => codecEnc Codec.encodeNumeric h
+  | ["codec.enc.alnum", h] => codecEnc Codec.encodeAlphanumeric h
+  | ["codec.enc.bytes", h] => codecEnc Codec.encodeBytes h
+  | ["codec.enc.kanji", h] => codecEnc Codec.encodeKanji h
+  | ["codec.dec.num", n, h] => codecDec Codec.decodeNumeric n h
+  | ["codec.dec.alnum", n, h] => codecDec Codec.decodeAlphanumeric n h
+  | ["codec.dec.bytes", n, h] => codecDec Codec.decodeBytes n h
+  | ["codec.dec.kanji", n, h] => codecDec Codec.decodeKanji n h
+  | ["codec.kanji.rune", r] => (match Codec.encodeKanjiRune r.toNat! with | some c => s!"ok {c}" | none => "ok none")
+  | ["codec.kanji.code", c] => (match Codec.decodeKanjiCode c.toNat! with | some r => s!"ok {r}" | none => "ok none")
+  | ["codec.class", ch] => s!"ok {Codec.isNumeric ch.toNat!} {Codec.isAlphanumeric ch.toNat!}"
+  | ["rs.new", n] => (RS.new n.toInt!).render fun (_, c) => toString c.length
+  | ["rs.enc", n, chunks] =>
+    (do let (t, c) ← RS.new n.toInt!
+        let c := (chunks.splitOn ",").foldl (fun c ch => RS.write t c (parseHex ch)) c
+        pure (RS.sum t c [])).render hexOf
+  | ["rs.dec", twoS, h] => (RS.decode (parseHex h) twoS.toInt!).render hexOf
+  | ["bmp.mask", i, u, p] => (Bitmap.Image.mask (parseImage i) (parseImage u) (parseImage p)).render Bitmap.Image.render
+  | ["bmp.at", i, x, y] => ((parseImage i).binaryAt x.toInt! y.toInt!).render toString
+  | ["bmp.set", i, x, y, c] => ((parseImage i).setBinary x.toInt! y.toInt! (c == "1")).render Bitmap.Image.render
+  | ["bmp.xor", i, x, y, c] => ((parseImage i).xorBinary x.toInt! y.toInt! (c == "1")).render Bitmap.Image.render
+  | ["bmp.ones", i] => ((parseImage i).onesCount).render showNat
+  | ["bmp.point", i] =>
+    let im := parseImage i
+    (do let a ← im.finderPattern; let b ← im.longRunLengthCount; let c ← im.blockCount; let d ← im.pointOnesCount
+        pure s!"{a} {b} {c} {d}").render id
+  | ["bmp.pointmicro", i] => ((parseImage i).pointMicro).render showNat
+  | "qr.enc" :: v :: l :: m :: _ :: segs =>
+    (QR.encodeToBitmap { version := v.toInt!, level := l.toInt!, mask := m.toInt!, segments := parseSegs segs }).render Bitmap.Image.render
+  | "qr.segs" :: v :: l :: _ :: segs =>
+    (QR.encodeSegments { version := v.toInt!, level := l.toInt!, mask := 0, segments := parseSegs segs } {}).render showBuf
+  | "qr.bits" :: v :: l :: _ :: segs =>
+    (QR.encodeToBits { version := v.toInt!, level := l.toInt!, mask := 0, segments := parseSegs segs } {}).render showBuf
+  | ["qr.dec", i] => (QR.decodeBitmap (parseImage i)).render showQR
+  | ["qr.decfull", i] => (QR.decodeBitmapFull (parseImage i)).render fun (q, im) => showQR q ++ " | " ++ im.render
+  | ["qr.fmt0", raw] => (match QR.decodeFormat0 raw.toNat! with | some (l, m) => s!"ok {l} {m}" | none => "ok none")
+  | ["qr.fmt", i] => (QR.decodeFormat (parseImage i)).render fun (l, m) => s!"{l} {m}"
+  | ["qr.new", l, k, h] => (QR.new l.toInt! (k == "1") (parseHex h)).render showQR
+  | "qr.calcver" :: l :: _ :: segs => (QR.calcVersion l.toInt! (parseSegs segs)).render toString
+  | ["qr.seglen", v, m, h] => (QR.segLength { mode := m.toNat!, data := parseHex h } v.toInt!).render showNat
+  | "mq.enc" :: v :: l :: m :: _ :: segs =>
+    (Micro.encodeToBitmap { version := v.toInt!, level := l.toInt!, mask := m.toInt!, segments := parseSegs segs }).render Bitmap.Image.render
+  | "mq.segs" :: v :: l :: _ :: segs =>
+    (Micro.encodeSegments { version := v.toInt!, level := l.toInt!, mask := 0, segments := parseSegs segs } {}).render showBuf
+  | ["mq.dec", i] => (Micro.decodeBitmap (parseImage i)).render showQR
+  | ["mq.decfull", i] => (Micro.decodeBitmapFull (parseImage i)).render fun (q, im) => showQR q ++ " | " ++ im.render
+  | ["mq.fmt", raw] => (Micro.decodeFormat raw.toNat!).render fun
+      | some (v, l, m) => s!"{v} {l} {m}"
+      | none => "none"
+  | ["mq.new", l, k, h] => (Micro.new l.toInt! (k == "1") (parseHex h)).render showQR
+  | "mq.calcver" :: l :: _ :: segs => (Micro.calcVersion l.toInt! (parseSegs segs)).render toString
+  | ["mq.seglen", v, m, h] => (match Micro.segLength { mode := m.toNat!, data := parseHex h } v.toInt! with | some n => s!"ok {n}" | none => "ok none")
+  | "rm.enc" :: v :: l :: _ :: segs =>
+    (RMQR.encodeToBitmap { version := v.toInt!, level := l.toInt!, mask := 0, segments := parseSegs segs }).render Bitmap.Image.render
+  | "rm.segs" :: v :: l :: _ :: segs =>
+    (RMQR.encodeSegments { version := v.toInt!, level := l.toInt!, mask := 0, segments := parseSegs segs } {}).render showBuf
+  | "rm.bits" :: v :: l :: _ :: segs =>
+    (RMQR.encodeToBits { version := v.toInt!, level := l.toInt!, mask := 0, segments := parseSegs segs } {}).render showBuf
+  | ["rm.dec", i] => (RMQR.decodeBitmap (parseImage i)).render showQR
+  | ["rm.decfull", i] => (RMQR.decodeBitmapFull (parseImage i)).render fun (q, im) => showQR q ++ " | " ++ im.render
+  | ["rm.fmt0", raw] => (match RMQR.decodeFormat0 raw.toNat! with | some (v, l) => s!"ok {v} {l}" | none => "ok none")
+  | ["rm.fmt", i] => (RMQR.decodeFormat (parseImage i)).render fun (v, l) => s!"{v} {l}"
+  | ["rm.new", l, p, k, h] => (RMQR.new l.toInt! p.toInt! (k == "1") (parseHex h)).render showQR
+  | "rm.calcver" :: l :: p :: _ :: segs =>
+    (RMQR.calcVersion l.toInt! p.toInt! (parseSegs segs)).render fun | some v => toString v | none => "none"
+  | ["rm.seglen", v, l, m, h] =>
+    (RMQR.segLength { mode := m.toNat!, data := parseHex h } v.toInt! l.toInt!).render fun | some n => toString n | none => "none"
   | _ => "bad-op"
 
 partial def loop (hin hout : IO.FS.Stream) : IO Unit := do
